@@ -105,7 +105,7 @@ def run(pid, tier):
     o.traces += len(blines)
     o.extra['btpe_drive'] = s6
     for (ln, ev) in parse_bad(r7.out):
-        o.finding(kind='btpe', op=ev.get('op'), case=ev.get('case'), k=ev.get('k'), y=ev.get('y'), res=str(ev.get('res'))[:80], show=ev.get('show'), event=ev,
+        o.finding(kind='btpe', op=ev.get('op'), case=ev.get('case'), k=ev.get('k'), y=ev.get('y'), n=ev.get('n'), res=str(ev.get('res'))[:80], show=ev.get('show'), event=ev,
                   signature='btpe:%s:%s:%s' % (ev.get('op'), ev.get('case'), ev.get('k')))
     o.samples.append({'kind': 'BTPE region 2: measured acceptance prefix', 'event': json.loads(blines[0])})
     # H2PE (Hypergeometric, mode >= 10 above the lower end), pointwise: region-1 acceptance prefix = exact pmf ratio
@@ -203,6 +203,25 @@ def run(pid, tier):
         o.finding(kind='binv', case=ev.get('case'), res=str(ev.get('res'))[:80], show=ev.get('show'), event={k: v for k, v in ev.items() if k != 'T'},
                   signature='binv:%s' % ev.get('case'))
     o.samples.append({'kind': 'BINV: exact one-word law, prefix counts per x', 'event': json.loads(bl[0])})
+    # HIN beyond N <= 30: exact one-word law against the documented hypergeometric CDF
+    hnf = wd / 'hin.ndjson'
+    r18 = tlc('MCHin', 'MCHin.cfg', pid, 'hin_cases', workers=1, timeout=1200, heap='2g', env={'TIER': tier}, pipe_to=[str(RDV), 'btpe-drive', '--out', str(hnf)])
+    require_ok(r18, 'MCHin')
+    s18 = json.loads(r18.consumer_out.strip().splitlines()[-1])
+    if s18['events'] < 10:
+        raise ToolError('btpe-drive (hin): too few events: %s' % s18)
+    r19 = tlc('TraceBtpe', 'TraceBtpe.cfg', pid, 'hin_trace', trace_mode=True, env={'TRACE': hnf, 'TIER': tier}, timeout=1200, heap='4g')
+    require_ok(r19, 'TraceBtpe (hin)')
+    if r19.rejected or r19.violated:
+        raise ToolError('hin trace not consumed: %s' % (r19.rejected or r19.violated))
+    hl = hnf.read_text().splitlines()
+    o.add_tlc(r19, 'TraceBtpe: exact HIN laws (one word per call, bisection per x) of %d parameter points against the documented CDF of HinTable, %d values of x' % (s18['events'], sum(len(json.loads(l)['T']) for l in hl)))
+    o.traces += len(hl)
+    o.extra['hin_drive'] = s18
+    for (ln, ev) in parse_bad(r19.out):
+        o.finding(kind='hin', case=ev.get('case'), res=str(ev.get('res'))[:80], show=ev.get('show'), event={k: v for k, v in ev.items() if k != 'T'},
+                  signature='hin:%s' % ev.get('case'))
+    o.samples.append({'kind': 'HIN: exact one-word law, prefix counts per x', 'event': json.loads(hl[0])})
     o.samples.append({'kind': 'Knuth method: exact P(X = 0) of Poisson<f64>', 'event': {k: v for k, v in json.loads(klines[-5]).items() if k != 'probes'}})
     o.samples.append({'kind': 'exact law of a two-word rejection sampler (f32) over 2^48 tickets', 'event': {k: v for k, v in json.loads(rlines[0]).items() if k != 'probes'}})
     o.samples.append({'kind': 'ticket histogram (real sampler -> TraceDiscrete)', 'event': next(e for e in evs if e['op'] == 'hist' and e['kind'] == 'hin' and e['par'][0] >= 8)})
@@ -219,6 +238,8 @@ def run(pid, tier):
         'Poisson PD (lambda >= 12) is decided POINTWISE in its main path: at the anchors of spec/PdTable.tla (7 values of lambda, k within 3.2 sigma below l, f64 and f32) the uniform words that return k after a normal deviate with floor k are a suffix of relative length '
         '1 - min((lambda-k)^3/d, 1 - pmf(k)/hat(k)) with pmf the Poisson pmf itself (2^-24 / 2^-15); the immediate-acceptance step I is structural (k >= l returns without a uniform draw); the double-exponential branch (steps E / H) likewise at 5 exponential deviates per lambda: the accepted uniform words form an interval around the middle word with half-lengths (pmf(k2) - hat(k2)) exp(e) / (2c) (2^-19 / 2^-12); everything between anchors is NOT decided',
         'Zipf<f64> / Zeta<f64> are decided POINTWISE at the anchors of spec/Rej64Table.tla (13 parameter points, first uniform j/16 and, for Zeta, proposals up to 2^320): the proposal is the table\'s and the accepting second uniform words are a prefix of the documented relative length (2^-40); between the anchors NOT decided',
+        'HIN beyond N <= 30: at the 10 (thorough 22) parameter points of spec/HinTable.tla (all four reductions K <-> N-K, n <-> N-n, N up to 10^5 / 10^6) #{words with X <= x} resp. #{words with X >= x} (the value is monotone in the one word drawn, in a direction that depends on the reductions) equals the documented CDF resp. survival function to 2^-36 for every x of the body of the law',
+        'Binomial with a mode beyond 2^53 (n = 2^55 ... 2^62): over 4096 random streams the values returned must include odd ones (known finding: they are multiples of the f64 spacing at the mode)',
         'BINV beyond dyadic p: at the 14 (thorough 29) parameter points of spec/BinvTable.tla (non-dyadic p, flipped p, n up to 2^55 with p down to 2^-53) the law of the one-word inversion is exact: #{words with X <= x} / #{one-word returns} equals the documented Binomial CDF to 2^-40 for every x up to the 2^-46 tail',
         'Geometric(p) is decided POINTWISE at the anchors of spec/GeoTable.tla (22 values of p incl. the dyadic ones of the scripted classes, non-dyadic, both sides of 2/3, k = 1 .. 40; thorough 39 values down to p = 3e-16): trivial algorithm - the words returning 0 at once are exactly (floor(p 2^53) + 1) 2^11; Bringmann-Friedrich - k is the documented one (a neighbour where the comparison with 1/2 is within f64 noise: any k gives the documented law), the words continuing the D loop are a prefix of relative length (1-p)^(2^k) and the uniform words accepting a remainder m (incl. m on both sides of 2^31) a prefix of relative length (1-p)^m, each to 2^-40 with p the exact value of the f64; between the anchors NOT decided',
         'Zipf/Zeta: the documented pmf values are mpmath constants of spec/RejectionTable.tla; the law formula A_k / A assumes two words per iteration and an acceptance region that is a prefix of the acceptance lattice, '
